@@ -1,8 +1,656 @@
-(* Proofs about Model/Simple.v (Gillespie_simple_contagion). *)
-From EoNV Require Import Prelude Samp Graph ListDict Gillespie Simple ListDictP.
+(* Proofs about Model/Simple.v (Gillespie_simple_contagion): the bookkeeping
+   invariant (DESIGN A.3) is preserved by every event, in the directed and in the
+   undirected branch; the one-step law; the stop rule; counts track statuses;
+   EoNError iff the specification is malformed. *)
+From EoNV Require Import Prelude Samp Graph ListDict ListDictP Gillespie KldP GillespieInv Simple.
 From Coq Require Import Permutation Lqa.
 
-Lemma setup_induced_first_component : forall g tr,
-  N.eqb (hd_status (tr_from tr)) (hd_status (tr_to tr)) = false ->
-  setup_induced g tr = Err EoNError.
-Proof. intros g tr H. unfold setup_induced. rewrite H. reflexivity. Qed.
+Lemma rbind_ok : forall A B (a : A) (f : A -> result B), rbind (Ok a) f = f a.
+Proof. reflexivity. Qed.
+
+(* ------------------------------------------------------------------ *)
+(* slots                                                               *)
+
+Definition sabs (sl : slot) : key -> option Q := kabs (sl_pot sl).
+Definition has_gw (sl : slot) : bool := match sl_gw sl with Some _ => true | None => false end.
+
+(* the weight get_weight[transition] gives to an actor (1 without weight source) *)
+Definition wgt (sl : slot) (k : key) : Q :=
+  match sl_gw sl with
+  | None => 1
+  | Some t => match tlook t k with Some w => w | None => 0 end
+  end.
+
+(* the dictionary knows the actor, with a non-negative weight *)
+Definition gw_ok (sl : slot) (k : key) : Prop :=
+  match sl_gw sl with
+  | None => True
+  | Some t => exists w, tlook t k = Some w /\ 0 <= w
+  end.
+
+Record slok (sl : slot) : Prop := {
+  so_inv : kinv (sl_pot sl);
+  so_w : weighted (sl_pot sl) = has_gw sl
+}.
+
+(* [sl'] is [sl] with another _ListDict_ *)
+Definition same_frame (sl sl' : slot) : Prop := sl_tr sl' = sl_tr sl /\ sl_gw sl' = sl_gw sl.
+
+Lemma same_frame_refl : forall sl, same_frame sl sl.
+Proof. intro sl. split; reflexivity. Qed.
+Lemma same_frame_trans : forall a b c, same_frame a b -> same_frame b c -> same_frame a c.
+Proof. intros a b c [H1 H2] [H3 H4]. split; congruence. Qed.
+Lemma same_frame_wgt : forall sl sl' k, same_frame sl sl' -> wgt sl' k = wgt sl k.
+Proof. intros sl sl' k [_ H]. unfold wgt. rewrite H. reflexivity. Qed.
+Lemma same_frame_gw_ok : forall sl sl' k, same_frame sl sl' -> gw_ok sl k -> gw_ok sl' k.
+Proof. intros sl sl' k [_ H]. unfold gw_ok. rewrite H. exact (fun x => x). Qed.
+Lemma same_frame_from : forall sl sl' k, same_frame sl sl' -> from_is sl' k = from_is sl k.
+Proof. intros sl sl' k [H _]. unfold from_is. rewrite H. reflexivity. Qed.
+
+Lemma wgt_nonneg : forall sl k, gw_ok sl k -> 0 <= wgt sl k.
+Proof.
+  intros sl k H. unfold wgt, gw_ok in *. destruct (sl_gw sl) as [t|]; [|lra].
+  destruct H as [w [E Hw]]. rewrite E. exact Hw.
+Qed.
+
+(* potential_transitions[tr].remove(k), guarded by [b] *)
+Lemma when_rem_ok : forall (b : bool) k sl,
+  slok sl -> (b = true -> sabs sl k <> None) ->
+  exists sl', when b (rem_actor k) sl = Ok sl' /\ slok sl' /\ same_frame sl sl' /\
+              sabs sl' k = (if b then None else sabs sl k) /\
+              forall x, x <> k -> sabs sl' x = sabs sl x.
+Proof.
+  intros b k sl Hok Hp. destruct b; cbn [when].
+  - unfold rem_actor.
+    destruct (kl_remove_present (sl_pot sl) k (so_inv sl Hok) (Hp eq_refl)) as [L' [He [Hi [Hw [Hk Ho]]]]].
+    rewrite He, rbind_ok. eexists. split; [reflexivity|]. split.
+    + constructor; cbn [sl_pot sl_gw has_gw]; [exact Hi|]. rewrite Hw. apply (so_w sl Hok).
+    + split; [split; reflexivity|]. split; [exact Hk|exact Ho].
+  - exists sl. split; [reflexivity|]. split; [exact Hok|]. split; [apply same_frame_refl|].
+    split; reflexivity.
+Qed.
+
+(* potential_transitions[tr].update(k, weight_increment = get_weight[tr][k]), guarded by [b] *)
+Lemma when_add_ok : forall (b : bool) k sl,
+  slok sl -> gw_ok sl k -> (b = true -> sabs sl k = None) ->
+  exists sl', when b (add_actor k) sl = Ok sl' /\ slok sl' /\ same_frame sl sl' /\
+              oQeq (sabs sl' k) (if b then Some (wgt sl k) else sabs sl k) /\
+              forall x, x <> k -> oQeq (sabs sl' x) (sabs sl x).
+Proof.
+  intros b k sl Hok Hgw Hp. destruct b; cbn [when].
+  - unfold add_actor, gw_get, wgt, gw_ok in *.
+    pose proof (so_w sl Hok) as Hw. unfold has_gw in Hw.
+    destruct (sl_gw sl) as [t|] eqn:Egw.
+    + destruct Hgw as [w [Et Hnn]]. rewrite Et, rbind_ok.
+      destruct (kl_update_absent (sl_pot sl) k true w (so_inv sl Hok) Hw Hnn (Hp eq_refl))
+        as [L' [He [Hi [Hw' [Hk Ho]]]]].
+      unfold wopt in He. rewrite He, rbind_ok. eexists. split; [reflexivity|]. split.
+      * constructor; cbn [sl_pot sl_gw has_gw]; [exact Hi|exact Hw'].
+      * split; [split; [reflexivity|cbn [sl_gw]; symmetry; exact Egw]|]. split; [exact Hk|exact Ho].
+    + rewrite rbind_ok.
+      destruct (kl_update_absent (sl_pot sl) k false 1 (so_inv sl Hok) Hw ltac:(lra) (Hp eq_refl))
+        as [L' [He [Hi [Hw' [Hk Ho]]]]].
+      unfold wopt in He. rewrite He, rbind_ok. eexists. split; [reflexivity|]. split.
+      * constructor; cbn [sl_pot sl_gw has_gw]; [exact Hi|exact Hw'].
+      * split; [split; [reflexivity|cbn [sl_gw]; symmetry; exact Egw]|]. split; [exact Hk|exact Ho].
+  - exists sl. split; [reflexivity|]. split; [exact Hok|]. split; [apply same_frame_refl|].
+    split; [apply oQeq_refl|]. intros x _. apply oQeq_refl.
+Qed.
+
+(* the roundoff guard: never fails, changes nothing the abstraction sees *)
+Lemma Qnat_ge_1 : forall n, (0 < n)%nat -> 1 <= Qnat n.
+Proof.
+  intros n H. unfold Qnat. replace 1 with (inject_Z 1) by reflexivity.
+  rewrite <- Zle_Qle. lia.
+Qed.
+
+Lemma refresh_ok : forall sl, slok sl ->
+  exists sl', refresh sl = Ok sl' /\ slok sl' /\ same_frame sl sl' /\ forall x, sabs sl' x = sabs sl x.
+Proof.
+  intros sl Hok. unfold refresh.
+  destruct (Qltb (ld_total_weight key (sl_pot sl)) tiny && negb (Qeqb (ld_total_weight key (sl_pot sl)) 0)) eqn:E.
+  - apply andb_true_iff in E. destruct E as [E1 E2].
+    apply Qltb_true in E1. apply negb_true_iff in E2. apply Qeqb_false in E2.
+    destruct (weighted (sl_pot sl)) eqn:Ew.
+    + eexists. split; [reflexivity|]. split.
+      * pose proof (so_inv sl Hok) as Hi. destruct Hi as [H1 H2 H3 H4 H5 H6].
+        constructor; cbn [sl_pot sl_gw has_gw].
+        -- constructor; cbn [items pos wt maxw total weighted]; try assumption.
+           ++ intros _. apply H3. exact Ew.
+           ++ intros _. apply H4. exact Ew.
+           ++ intros _. apply H5. exact Ew.
+           ++ intros _. unfold wread. cbn [wt]. reflexivity.
+        -- cbn [weighted]. rewrite <- Ew. apply (so_w sl Hok).
+      * split; [split; reflexivity|]. intro x. unfold sabs. cbn [sl_pot].
+        rewrite !(abs_unfold key). cbn [pos weighted]. rewrite Ew. unfold wread. cbn [wt]. reflexivity.
+    + exfalso. unfold ld_total_weight in E1, E2. rewrite Ew in E1, E2.
+      destruct (items (sl_pot sl)) as [|x r] eqn:Ei.
+      * apply E2. reflexivity.
+      * assert (H : 1 <= Qnat (length (x :: r))) by (apply Qnat_ge_1; cbn [length]; lia).
+        unfold tiny in E1. assert (H2 : (1 # 10000000) < 1) by reflexivity. lra.
+  - exists sl. split; [reflexivity|]. split; [exact Hok|]. split; [apply same_frame_refl|]. reflexivity.
+Qed.
+
+(* generic fold over a duplicate-free neighbour list with a "processed so far" specification *)
+Lemma sfold_agree : forall (step : node -> slot -> result slot) (sl0 : slot)
+    (M : list node -> key -> option Q) (l : list node),
+  (forall d x sl, In x l -> ~ In x d -> slok sl -> same_frame sl0 sl ->
+       (forall k, oQeq (sabs sl k) (M d k)) ->
+       exists sl', step x sl = Ok sl' /\ slok sl' /\ same_frame sl0 sl' /\
+                   forall k, oQeq (sabs sl' k) (M (x :: d) k)) ->
+  NoDup l ->
+  forall d sl, (forall x, In x l -> ~ In x d) -> slok sl -> same_frame sl0 sl ->
+    (forall k, oQeq (sabs sl k) (M d k)) ->
+    exists sl', rfold step l sl = Ok sl' /\ slok sl' /\ same_frame sl0 sl' /\
+                forall k, oQeq (sabs sl' k) (M (rev l ++ d) k).
+Proof.
+  intros step sl0 M l. unfold rfold.
+  induction l as [|x l IH]; intros Hstep Hnd d sl Hd Hok Hfr Hag.
+  - exists sl. cbn [fold_left rev app]. split; [reflexivity|]. split; [exact Hok|]. split; [exact Hfr|exact Hag].
+  - apply NoDup_cons_iff in Hnd. destruct Hnd as [Hx Hnd'].
+    destruct (Hstep d x sl (or_introl eq_refl) (Hd x (or_introl eq_refl)) Hok Hfr Hag)
+      as [sl1 [He [Hok1 [Hfr1 Ha1]]]].
+    cbn [fold_left rbind]. rewrite He.
+    destruct (IH (fun d0 x0 sl1 Hin => Hstep d0 x0 sl1 (or_intror Hin)) Hnd' (x :: d) sl1)
+      as [sl' [He' [Hok' [Hfr' Ha']]]].
+    + intros y Hy [E|Hyd]; [subst y; contradiction|]. apply (Hd y (or_intror Hy)). exact Hyd.
+    + exact Hok1.
+    + exact Hfr1.
+    + exact Ha1.
+    + exists sl'. split; [exact He'|]. split; [exact Hok'|]. split; [exact Hfr'|].
+      intro k. cbn [rev]. rewrite <- app_assoc. cbn [app]. apply Ha'.
+Qed.
+
+(* remove-then-add on one key (directed loops, spontaneous transitions); the
+   conditions are tests `transition[0] == ...` on the slot's transition *)
+Lemma one_key_ok : forall (K1 K2 : key) k sl,
+  slok sl -> gw_ok sl k ->
+  (from_is sl K1 = true -> sabs sl k <> None) -> (from_is sl K1 = false -> sabs sl k = None) ->
+  exists sl', rbind (when (from_is sl K1) (rem_actor k) sl)
+                    (fun sl => when (from_is sl K2) (add_actor k) sl) = Ok sl' /\
+              slok sl' /\ same_frame sl sl' /\
+              oQeq (sabs sl' k) (if from_is sl K2 then Some (wgt sl k) else None) /\
+              forall x, x <> k -> oQeq (sabs sl' x) (sabs sl x).
+Proof.
+  intros K1 K2 k sl Hok Hgw Hp Ha.
+  destruct (when_rem_ok (from_is sl K1) k sl Hok Hp) as [sl1 [E1 [Hok1 [Hf1 [Hk1 Ho1]]]]].
+  rewrite E1, rbind_ok.
+  assert (Hn1 : sabs sl1 k = None).
+  { rewrite Hk1. destruct (from_is sl K1); [reflexivity|]. apply Ha. reflexivity. }
+  rewrite (same_frame_from _ _ _ Hf1).
+  destruct (when_add_ok (from_is sl K2) k sl1 Hok1 (same_frame_gw_ok _ _ _ Hf1 Hgw) (fun _ => Hn1))
+    as [sl2 [E2 [Hok2 [Hf2 [Hk2 Ho2]]]]].
+  exists sl2. split; [exact E2|]. split; [exact Hok2|]. split; [eapply same_frame_trans; eassumption|].
+  split.
+  - eapply oQeq_trans; [exact Hk2|]. rewrite (same_frame_wgt _ _ _ Hf1). rewrite Hn1.
+    destruct (from_is sl K2); apply oQeq_refl.
+  - intros x Hx. eapply oQeq_trans; [apply Ho2; exact Hx|]. rewrite (Ho1 x Hx). apply oQeq_refl.
+Qed.
+
+(* the undirected loop body: remove k1, remove k2, add k1, add k2 *)
+Lemma two_key_ok : forall (K1 K2 K3 K4 : key) k1 k2 sl,
+  k1 <> k2 -> slok sl -> gw_ok sl k1 -> gw_ok sl k2 ->
+  (from_is sl K1 = true -> sabs sl k1 <> None) -> (from_is sl K1 = false -> sabs sl k1 = None) ->
+  (from_is sl K2 = true -> sabs sl k2 <> None) -> (from_is sl K2 = false -> sabs sl k2 = None) ->
+  exists sl', rbind (when (from_is sl K1) (rem_actor k1) sl) (fun sl =>
+              rbind (when (from_is sl K2) (rem_actor k2) sl) (fun sl =>
+              rbind (when (from_is sl K3) (add_actor k1) sl) (fun sl =>
+              when (from_is sl K4) (add_actor k2) sl))) = Ok sl' /\
+              slok sl' /\ same_frame sl sl' /\
+              oQeq (sabs sl' k1) (if from_is sl K3 then Some (wgt sl k1) else None) /\
+              oQeq (sabs sl' k2) (if from_is sl K4 then Some (wgt sl k2) else None) /\
+              forall x, x <> k1 -> x <> k2 -> oQeq (sabs sl' x) (sabs sl x).
+Proof.
+  intros K1 K2 K3 K4 k1 k2 sl Hne Hok Hg1 Hg2 Hp1 Ha1 Hp2 Ha2.
+  assert (Hne' : k2 <> k1) by (intro E; apply Hne; symmetry; exact E).
+  destruct (when_rem_ok (from_is sl K1) k1 sl Hok Hp1) as [s1 [E1 [Hok1 [Hf1 [Hk1 Ho1]]]]].
+  rewrite E1, rbind_ok.
+  assert (Hn1 : sabs s1 k1 = None).
+  { rewrite Hk1. destruct (from_is sl K1); [reflexivity|]. apply Ha1. reflexivity. }
+  rewrite (same_frame_from _ _ _ Hf1).
+  assert (Hp2' : from_is sl K2 = true -> sabs s1 k2 <> None).
+  { intro E. rewrite (Ho1 k2 Hne'). apply Hp2. exact E. }
+  destruct (when_rem_ok (from_is sl K2) k2 s1 Hok1 Hp2') as [s2 [E2 [Hok2 [Hf2 [Hk2 Ho2]]]]].
+  rewrite E2, rbind_ok.
+  assert (Hn2 : sabs s2 k2 = None).
+  { rewrite Hk2. destruct (from_is sl K2); [reflexivity|]. rewrite (Ho1 k2 Hne'). apply Ha2. reflexivity. }
+  assert (Hn12 : sabs s2 k1 = None). { rewrite (Ho2 k1 Hne). exact Hn1. }
+  pose proof (same_frame_trans _ _ _ Hf1 Hf2) as Hf02.
+  rewrite (same_frame_from _ _ _ Hf02).
+  destruct (when_add_ok (from_is sl K3) k1 s2 Hok2 (same_frame_gw_ok _ _ _ Hf02 Hg1) (fun _ => Hn12))
+    as [s3 [E3 [Hok3 [Hf3 [Hk3 Ho3]]]]].
+  rewrite E3, rbind_ok.
+  pose proof (same_frame_trans _ _ _ Hf02 Hf3) as Hf03.
+  rewrite (same_frame_from _ _ _ Hf03).
+  assert (Hn23 : sabs s3 k2 = None).
+  { apply oQeq_none_l. rewrite <- Hn2. apply Ho3. exact Hne'. }
+  destruct (when_add_ok (from_is sl K4) k2 s3 Hok3 (same_frame_gw_ok _ _ _ Hf03 Hg2) (fun _ => Hn23))
+    as [s4 [E4 [Hok4 [Hf4 [Hk4 Ho4]]]]].
+  exists s4. split; [exact E4|]. split; [exact Hok4|]. split; [eapply same_frame_trans; eassumption|].
+  split; [|split].
+  - eapply oQeq_trans; [apply Ho4; exact Hne|]. eapply oQeq_trans; [exact Hk3|].
+    rewrite (same_frame_wgt _ _ _ Hf02), Hn12. destruct (from_is sl K3); apply oQeq_refl.
+  - eapply oQeq_trans; [exact Hk4|]. rewrite (same_frame_wgt _ _ _ Hf03), Hn23.
+    destruct (from_is sl K4); apply oQeq_refl.
+  - intros x Hx1 Hx2. eapply oQeq_trans; [apply Ho4; exact Hx2|].
+    eapply oQeq_trans; [apply Ho3; exact Hx1|]. rewrite (Ho2 x Hx2), (Ho1 x Hx1). apply oQeq_refl.
+Qed.
+
+(* the fill-ins of get_weight do nothing when the dictionary is complete *)
+Lemma fill_fwd_id : forall m x sl, gw_ok sl (kpair m x) -> fill_fwd m x sl = Ok sl.
+Proof.
+  intros m x sl H. unfold fill_fwd, gw_ok in *. destruct (sl_gw sl) as [t|]; [|reflexivity].
+  destruct H as [w [E _]]. rewrite E. reflexivity.
+Qed.
+Lemma fill_pred_id : forall m p sl, gw_ok sl (kpair p m) -> fill_pred m p sl = Ok sl.
+Proof.
+  intros m p sl H. unfold fill_pred, gw_ok in *. destruct (sl_gw sl) as [t|]; [|reflexivity].
+  destruct H as [w [E _]]. rewrite E. reflexivity.
+Qed.
+Lemma fill_undirected_id : forall m x sl, gw_ok sl (kpair m x) -> gw_ok sl (kpair x m) ->
+  fill_undirected m x sl = Ok sl.
+Proof.
+  intros m x sl H1 H2. unfold fill_undirected, gw_ok in *. destruct (sl_gw sl) as [t|]; [|reflexivity].
+  destruct H1 as [w1 [E1 _]]. destruct H2 as [w2 [E2 _]]. rewrite E1, E2. reflexivity.
+Qed.
+
+(* ------------------------------------------------------------------ *)
+(* the specification of the bookkeeping                                *)
+
+Section Ev.
+Variable g : graph.
+
+(* simple graph (what wf_graphb checks), in the form the proofs use *)
+Record wfg2 : Prop := {
+  g_nodup : NoDup (gnodes g);
+  g_adj_nodup : forall u, In u (gnodes g) -> NoDup (gadj g u);
+  g_pred_nodup : forall u, In u (gnodes g) -> NoDup (gpred g u);
+  g_noself : forall u, In u (gnodes g) -> ~ In u (gadj g u);
+  g_adj_in : forall u v, In u (gnodes g) -> In v (gadj g u) -> In v (gnodes g);
+  g_pred_in : forall u v, In u (gnodes g) -> In v (gpred g u) -> In v (gnodes g);
+  g_pred_adj : forall u v, In u (gnodes g) -> In v (gnodes g) -> (In u (gpred g v) <-> In v (gadj g u));
+  g_sym : gdirected g = false -> forall u v, In u (gnodes g) -> In v (gadj g u) -> In u (gadj g v)
+}.
+Hypothesis Hg : wfg2.
+
+(* L0: the actors a transition is enabled for, with their weights, computed from
+   scratch from the statuses *)
+Definition sp_spec (st : node -> N) (sl : slot) (k : key) : option Q :=
+  match k with
+  | [u] => if mem u (gnodes g) && from_is sl [st u] then Some (wgt sl k) else None
+  | _ => None
+  end.
+Definition in_spec (st : node -> N) (sl : slot) (k : key) : option Q :=
+  match k with
+  | [u; v] => if mem u (gnodes g) && mem v (gadj g u) && from_is sl [st u; st v]
+              then Some (wgt sl k) else None
+  | _ => None
+  end.
+
+(* the weight dictionaries cover every node / every ordered adjacent pair *)
+Definition sp_full (sl : slot) : Prop := forall u, In u (gnodes g) -> gw_ok sl [u].
+Definition in_full (sl : slot) : Prop :=
+  forall u v, In u (gnodes g) -> In v (gadj g u) -> gw_ok sl [u; v].
+
+Lemma sp_spec_frame : forall st sl sl' k, same_frame sl sl' -> sp_spec st sl' k = sp_spec st sl k.
+Proof.
+  intros st sl sl' [|u [|v r]] Hf; cbn [sp_spec]; try reflexivity.
+  rewrite (same_frame_from _ _ _ Hf), (same_frame_wgt _ _ _ Hf). reflexivity.
+Qed.
+Lemma in_spec_frame : forall st sl sl' k, same_frame sl sl' -> in_spec st sl' k = in_spec st sl k.
+Proof.
+  intros st sl sl' [|u [|v [|w r]]] Hf; cbn [in_spec]; try reflexivity.
+  rewrite (same_frame_from _ _ _ Hf), (same_frame_wgt _ _ _ Hf). reflexivity.
+Qed.
+Lemma sp_full_frame : forall sl sl', same_frame sl sl' -> sp_full sl -> sp_full sl'.
+Proof. intros sl sl' Hf H u Hu. apply (same_frame_gw_ok _ _ _ Hf). apply H. exact Hu. Qed.
+Lemma in_full_frame : forall sl sl', same_frame sl sl' -> in_full sl -> in_full sl'.
+Proof. intros sl sl' Hf H u v Hu Hv. apply (same_frame_gw_ok _ _ _ Hf). apply H; assumption. Qed.
+
+Lemma mem_true_In : forall x l, In x l -> mem x l = true.
+Proof. intros x l H. apply mem_In. exact H. Qed.
+
+Lemma oQeq_if_some : forall (a : option Q) (b : bool) w,
+  oQeq a (if b then Some w else None) ->
+  (b = true -> a <> None) /\ (b = false -> a = None).
+Proof.
+  intros a b w H. destruct b.
+  - split; [intros _; eapply oQeq_some_not_none; exact H|discriminate].
+  - split; [discriminate|intros _; apply oQeq_none_l; exact H].
+Qed.
+
+Section Update.
+Variable st : node -> N.          (* statuses before the event *)
+Variable m : node.
+Variable new : N.
+Hypothesis Hm : In m (gnodes g).
+Let old := st m.
+Let st' := fupdN st m new.
+
+Lemma st'_m : st' m = new.
+Proof. unfold st'. apply fupdN_same. Qed.
+Lemma st'_other : forall x, x <> m -> st' x = st x.
+Proof. intros x H. unfold st'. apply fupdN_other. exact H. Qed.
+
+(* ---- spontaneous transitions (sim:4242-4253) ---- *)
+Lemma upd_spont_ok : forall sl,
+  slok sl -> sp_full sl -> (forall k, oQeq (sabs sl k) (sp_spec st sl k)) ->
+  exists sl', upd_spont m old new sl = Ok sl' /\ slok sl' /\ same_frame sl sl' /\
+              forall k, oQeq (sabs sl' k) (sp_spec st' sl k).
+Proof.
+  intros sl Hok Hfull Hag. unfold upd_spont.
+  assert (Hpre : oQeq (sabs sl (knode m)) (if from_is sl [old] then Some (wgt sl (knode m)) else None)).
+  { eapply oQeq_trans; [apply Hag|]. unfold knode. cbn [sp_spec]. rewrite (mem_true_In _ _ Hm).
+    cbn [andb]. apply oQeq_refl. }
+  destruct (oQeq_if_some _ _ _ Hpre) as [Hp Ha].
+  destruct (one_key_ok [old] [new] (knode m) sl Hok (Hfull m Hm) Hp Ha)
+    as [sl1 [E1 [Hok1 [Hf1 [Hk1 Ho1]]]]].
+  assert (E1' : rbind (when (from_is sl [old]) (rem_actor (knode m)) sl)
+                  (fun sl0 => rbind (when (from_is sl0 [new]) (add_actor (knode m)) sl0) refresh)
+                = rbind (rbind (when (from_is sl [old]) (rem_actor (knode m)) sl)
+                    (fun sl0 => when (from_is sl0 [new]) (add_actor (knode m)) sl0)) refresh).
+  { destruct (when (from_is sl [old]) (rem_actor (knode m)) sl); reflexivity. }
+  rewrite E1', E1, rbind_ok.
+  destruct (refresh_ok sl1 Hok1) as [sl2 [E2 [Hok2 [Hf2 Hs2]]]].
+  exists sl2. split; [exact E2|]. split; [exact Hok2|]. split; [eapply same_frame_trans; eassumption|].
+  intro k. rewrite Hs2. destruct (keqb_spec k (knode m)) as [E|E].
+  - subst k. eapply oQeq_trans; [exact Hk1|]. unfold knode. cbn [sp_spec].
+    rewrite (mem_true_In _ _ Hm), st'_m. cbn [andb]. apply oQeq_refl.
+  - eapply oQeq_trans; [apply Ho1; exact E|]. eapply oQeq_trans; [apply Hag|]. apply oQeq_of_eq.
+    destruct k as [|u [|v r]]; cbn [sp_spec]; try reflexivity.
+    rewrite st'_other; [reflexivity|]. intro Eu. subst u. apply E. reflexivity.
+Qed.
+
+(* ---- induced transitions, undirected branch (sim:4282-4300) ---- *)
+Lemma nbr_facts : forall x, In x (gadj g m) -> x <> m /\ In x (gnodes g).
+Proof.
+  intros x Hx. split.
+  - intro E. subst x. apply (g_noself Hg m Hm). exact Hx.
+  - apply (g_adj_in Hg m x Hm Hx).
+Qed.
+
+Definition touched (d : list node) (k : key) : bool :=
+  match k with
+  | [a; b] => (N.eqb a m && mem b d) || (N.eqb b m && mem a d)
+  | _ => false
+  end.
+Definition Mu (sl : slot) (d : list node) (k : key) : option Q :=
+  if touched d k then in_spec st' sl k else in_spec st sl k.
+
+Lemma in_spec_untouched : forall sl a b, a <> m -> b <> m ->
+  in_spec st' sl [a; b] = in_spec st sl [a; b].
+Proof.
+  intros sl a b Ha Hb. cbn [in_spec]. rewrite (st'_other a Ha), (st'_other b Hb). reflexivity.
+Qed.
+
+Lemma in_spec_at : forall s0 sl a b, In a (gnodes g) -> In b (gadj g a) ->
+  in_spec s0 sl [a; b] = if from_is sl [s0 a; s0 b] then Some (wgt sl [a; b]) else None.
+Proof.
+  intros s0 sl a b Ha Hb. cbn [in_spec]. rewrite (mem_true_In _ _ Ha), (mem_true_In _ _ Hb).
+  reflexivity.
+Qed.
+
+Lemma in_spec_nonedge : forall s0 sl a b, ~ (In a (gnodes g) /\ In b (gadj g a)) ->
+  in_spec s0 sl [a; b] = None.
+Proof.
+  intros s0 sl a b H. cbn [in_spec].
+  destruct (mem a (gnodes g)) eqn:Ea; [|reflexivity].
+  destruct (mem b (gadj g a)) eqn:Eb; [|reflexivity].
+  exfalso. apply H. split; apply mem_In; assumption.
+Qed.
+
+Lemma upd_nbr_ok : forall sl0, gdirected g = false -> in_full sl0 ->
+  forall d x sl, In x (gadj g m) -> ~ In x d -> slok sl -> same_frame sl0 sl ->
+  (forall k, oQeq (sabs sl k) (Mu sl0 d k)) ->
+  exists sl', upd_nbr st' m old new x sl = Ok sl' /\ slok sl' /\ same_frame sl0 sl' /\
+              forall k, oQeq (sabs sl' k) (Mu sl0 (x :: d) k).
+Proof.
+  intros sl0 Hund Hfull d x sl Hx Hxd Hok Hfr Hag.
+  destruct (nbr_facts x Hx) as [Hxm Hxn].
+  assert (Hmx : In m (gadj g x)) by (apply (g_sym Hg Hund m x Hm Hx)).
+  assert (Hmd : mem x d = false) by (apply mem_false; exact Hxd).
+  pose proof (in_full_frame _ _ Hfr Hfull) as Hfull'.
+  assert (Hg1 : gw_ok sl (kpair x m)) by (apply Hfull'; assumption).
+  assert (Hg2 : gw_ok sl (kpair m x)) by (apply Hfull'; assumption).
+  assert (Hne : kpair x m <> kpair m x).
+  { unfold kpair. intro E. injection E as E1 _. contradiction. }
+  assert (Hpre1 : oQeq (sabs sl (kpair x m))
+            (if from_is sl [st' x; old] then Some (wgt sl (kpair x m)) else None)).
+  { eapply oQeq_trans; [apply Hag|]. unfold Mu, kpair. cbn [touched].
+    destruct (N.eqb_spec x m) as [E|_]; [contradiction|]. rewrite N.eqb_refl, Hmd. cbn [andb orb].
+    rewrite (in_spec_at st sl0 x m Hxn Hmx). rewrite (st'_other x Hxm).
+    rewrite <- (same_frame_from _ _ [st x; st m] Hfr), <- (same_frame_wgt _ _ [x; m] Hfr).
+    apply oQeq_refl. }
+  assert (Hpre2 : oQeq (sabs sl (kpair m x))
+            (if from_is sl [old; st' x] then Some (wgt sl (kpair m x)) else None)).
+  { eapply oQeq_trans; [apply Hag|]. unfold Mu, kpair. cbn [touched].
+    rewrite N.eqb_refl, Hmd. destruct (N.eqb_spec x m) as [E|_]; [contradiction|]. cbn [andb orb].
+    rewrite (in_spec_at st sl0 m x Hm Hx). rewrite (st'_other x Hxm).
+    rewrite <- (same_frame_from _ _ [st m; st x] Hfr), <- (same_frame_wgt _ _ [m; x] Hfr).
+    apply oQeq_refl. }
+  destruct (oQeq_if_some _ _ _ Hpre1) as [Hp1 Ha1].
+  destruct (oQeq_if_some _ _ _ Hpre2) as [Hp2 Ha2].
+  unfold upd_nbr. rewrite (fill_undirected_id m x sl Hg2 Hg1), rbind_ok.
+  destruct (two_key_ok [st' x; old] [old; st' x] [st' x; new] [new; st' x] (kpair x m) (kpair m x) sl
+              Hne Hok Hg1 Hg2 Hp1 Ha1 Hp2 Ha2) as [sl' [Eq [Hok' [Hf' [Hk1 [Hk2 Ho]]]]]].
+  exists sl'. split; [exact Eq|]. split; [exact Hok'|]. split; [eapply same_frame_trans; eassumption|].
+  intro k. destruct (keqb_spec k (kpair x m)) as [E1|E1]; [|destruct (keqb_spec k (kpair m x)) as [E2|E2]].
+  - subst k. eapply oQeq_trans; [exact Hk1|]. unfold Mu, kpair. cbn [touched].
+    rewrite N.eqb_refl. cbn [mem existsb]. rewrite N.eqb_refl. cbn [orb andb]. rewrite orb_true_r.
+    rewrite (in_spec_at st' sl0 x m Hxn Hmx), st'_m.
+    rewrite <- (same_frame_from _ _ [st' x; new] Hfr), <- (same_frame_wgt _ _ [x; m] Hfr).
+    apply oQeq_refl.
+  - subst k. eapply oQeq_trans; [exact Hk2|]. unfold Mu, kpair. cbn [touched].
+    rewrite N.eqb_refl. cbn [mem existsb]. rewrite N.eqb_refl. cbn [orb andb].
+    rewrite (in_spec_at st' sl0 m x Hm Hx), st'_m.
+    rewrite <- (same_frame_from _ _ [new; st' x] Hfr), <- (same_frame_wgt _ _ [m; x] Hfr).
+    apply oQeq_refl.
+  - eapply oQeq_trans; [apply Ho; assumption|]. eapply oQeq_trans; [apply Hag|]. apply oQeq_of_eq.
+    unfold Mu. replace (touched (x :: d) k) with (touched d k); [reflexivity|].
+    destruct k as [|a [|b [|c r]]]; cbn [touched]; try reflexivity.
+    cbn [mem existsb].
+    destruct (N.eqb_spec a m) as [Ea|Ea]; destruct (N.eqb_spec b m) as [Eb|Eb]; cbn [andb orb].
+    + subst a b. destruct (N.eqb_spec m x) as [E|_]; [exfalso; apply Hxm; symmetry; exact E|reflexivity].
+    + subst a. destruct (N.eqb_spec b x) as [E|_]; [subst b; exfalso; apply E2; reflexivity|].
+      cbn [orb]. reflexivity.
+    + subst b. destruct (N.eqb_spec a x) as [E|_]; [subst a; exfalso; apply E1; reflexivity|].
+      cbn [orb]. reflexivity.
+    + reflexivity.
+Qed.
+
+Lemma Mu_nil : forall sl k, Mu sl [] k = in_spec st sl k.
+Proof.
+  intros sl k. unfold Mu. replace (touched [] k) with false; [reflexivity|].
+  destruct k as [|a [|b [|c r]]]; cbn [touched mem existsb]; try reflexivity.
+  rewrite !andb_false_r. reflexivity.
+Qed.
+
+Lemma Mu_full : forall sl k, gdirected g = false ->
+  Mu sl (rev (gadj g m) ++ []) k = in_spec st' sl k.
+Proof.
+  intros sl k Hund. unfold Mu. rewrite app_nil_r.
+  destruct (touched (rev (gadj g m)) k) eqn:Et; [reflexivity|].
+  destruct k as [|a [|b [|c r]]]; try reflexivity.
+  cbn [touched] in Et. rewrite !mem_rev in Et. apply orb_false_iff in Et. destruct Et as [E1 E2].
+  destruct (N.eqb_spec a m) as [Ea|Ea].
+  - subst a. cbn [andb] in E1. apply mem_false in E1.
+    rewrite !in_spec_nonedge; [reflexivity| |]; intros [_ H]; contradiction.
+  - destruct (N.eqb_spec b m) as [Eb|Eb].
+    + subst b. cbn [andb] in E2. apply mem_false in E2.
+      rewrite !in_spec_nonedge; [reflexivity| |]; intros [Ha H]; apply E2;
+        apply (g_sym Hg Hund a m Ha H).
+    + symmetry. apply in_spec_untouched; assumption.
+Qed.
+
+(* ---- induced transitions, directed branch (sim:4258-4280) ---- *)
+Definition touched_s (d : list node) (k : key) : bool :=
+  match k with [a; b] => N.eqb a m && mem b d | _ => false end.
+Definition Ms (sl : slot) (d : list node) (k : key) : option Q :=
+  if touched_s d k then in_spec st' sl k else in_spec st sl k.
+Definition touched_p (d : list node) (k : key) : bool :=
+  match k with [a; b] => N.eqb b m && mem a d | _ => false end.
+Definition Mp (sl : slot) (d : list node) (k : key) : option Q :=
+  if touched_p d k then in_spec st' sl k else Ms sl (rev (gadj g m) ++ []) k.
+
+Lemma upd_succ_ok : forall sl0, in_full sl0 ->
+  forall d x sl, In x (gadj g m) -> ~ In x d -> slok sl -> same_frame sl0 sl ->
+  (forall k, oQeq (sabs sl k) (Ms sl0 d k)) ->
+  exists sl', upd_succ st' m old new x sl = Ok sl' /\ slok sl' /\ same_frame sl0 sl' /\
+              forall k, oQeq (sabs sl' k) (Ms sl0 (x :: d) k).
+Proof.
+  intros sl0 Hfull d x sl Hx Hxd Hok Hfr Hag.
+  destruct (nbr_facts x Hx) as [Hxm Hxn].
+  assert (Hmd : mem x d = false) by (apply mem_false; exact Hxd).
+  pose proof (in_full_frame _ _ Hfr Hfull) as Hfull'.
+  assert (Hg2 : gw_ok sl (kpair m x)) by (apply Hfull'; assumption).
+  assert (Hpre2 : oQeq (sabs sl (kpair m x))
+            (if from_is sl [old; st' x] then Some (wgt sl (kpair m x)) else None)).
+  { eapply oQeq_trans; [apply Hag|]. unfold Ms, kpair. cbn [touched_s].
+    rewrite N.eqb_refl, Hmd. cbn [andb].
+    rewrite (in_spec_at st sl0 m x Hm Hx). rewrite (st'_other x Hxm).
+    rewrite <- (same_frame_from _ _ [st m; st x] Hfr), <- (same_frame_wgt _ _ [m; x] Hfr).
+    apply oQeq_refl. }
+  destruct (oQeq_if_some _ _ _ Hpre2) as [Hp2 Ha2].
+  unfold upd_succ. rewrite (fill_fwd_id m x sl Hg2), rbind_ok.
+  destruct (one_key_ok [old; st' x] [new; st' x] (kpair m x) sl Hok Hg2 Hp2 Ha2)
+    as [sl' [Eq [Hok' [Hf' [Hk2 Ho]]]]].
+  exists sl'. split; [exact Eq|]. split; [exact Hok'|]. split; [eapply same_frame_trans; eassumption|].
+  intro k. destruct (keqb_spec k (kpair m x)) as [E2|E2].
+  - subst k. eapply oQeq_trans; [exact Hk2|]. unfold Ms, kpair. cbn [touched_s].
+    rewrite N.eqb_refl. cbn [mem existsb]. rewrite N.eqb_refl. cbn [orb andb].
+    rewrite (in_spec_at st' sl0 m x Hm Hx), st'_m.
+    rewrite <- (same_frame_from _ _ [new; st' x] Hfr), <- (same_frame_wgt _ _ [m; x] Hfr).
+    apply oQeq_refl.
+  - eapply oQeq_trans; [apply Ho; assumption|]. eapply oQeq_trans; [apply Hag|]. apply oQeq_of_eq.
+    unfold Ms. replace (touched_s (x :: d) k) with (touched_s d k); [reflexivity|].
+    destruct k as [|a [|b [|c r]]]; cbn [touched_s]; try reflexivity.
+    cbn [mem existsb]. destruct (N.eqb_spec a m) as [Ea|Ea]; cbn [andb]; [|reflexivity].
+    subst a. destruct (N.eqb_spec b x) as [E|_]; [subst b; exfalso; apply E2; reflexivity|].
+    cbn [orb]. reflexivity.
+Qed.
+
+Lemma Ms_nil : forall sl k, Ms sl [] k = in_spec st sl k.
+Proof.
+  intros sl k. unfold Ms. replace (touched_s [] k) with false; [reflexivity|].
+  destruct k as [|a [|b [|c r]]]; cbn [touched_s mem existsb]; try reflexivity.
+  rewrite andb_false_r. reflexivity.
+Qed.
+
+Lemma pred_facts : forall p, In p (gpred g m) -> p <> m /\ In p (gnodes g) /\ In m (gadj g p).
+Proof.
+  intros p Hp.
+  assert (Hpn : In p (gnodes g)) by (apply (g_pred_in Hg m p Hm Hp)).
+  assert (Hmp : In m (gadj g p)) by (apply (g_pred_adj Hg p m Hpn Hm); exact Hp).
+  split; [|split; assumption].
+  intro E. subst p. apply (g_noself Hg m Hm). exact Hmp.
+Qed.
+
+Lemma upd_pred_ok : forall sl0, in_full sl0 ->
+  forall d p sl, In p (gpred g m) -> ~ In p d -> slok sl -> same_frame sl0 sl ->
+  (forall k, oQeq (sabs sl k) (Mp sl0 d k)) ->
+  exists sl', upd_pred st' m old new p sl = Ok sl' /\ slok sl' /\ same_frame sl0 sl' /\
+              forall k, oQeq (sabs sl' k) (Mp sl0 (p :: d) k).
+Proof.
+  intros sl0 Hfull d p sl Hp Hpd Hok Hfr Hag.
+  destruct (pred_facts p Hp) as [Hpm [Hpn Hmp]].
+  assert (Hmd : mem p d = false) by (apply mem_false; exact Hpd).
+  pose proof (in_full_frame _ _ Hfr Hfull) as Hfull'.
+  assert (Hg1 : gw_ok sl (kpair p m)) by (apply Hfull'; assumption).
+  assert (Hpre1 : oQeq (sabs sl (kpair p m))
+            (if from_is sl [st' p; old] then Some (wgt sl (kpair p m)) else None)).
+  { eapply oQeq_trans; [apply Hag|]. unfold Mp, Ms, kpair. cbn [touched_p touched_s].
+    rewrite N.eqb_refl, Hmd. destruct (N.eqb_spec p m) as [E|_]; [contradiction|]. cbn [andb].
+    rewrite (in_spec_at st sl0 p m Hpn Hmp). rewrite (st'_other p Hpm).
+    rewrite <- (same_frame_from _ _ [st p; st m] Hfr), <- (same_frame_wgt _ _ [p; m] Hfr).
+    apply oQeq_refl. }
+  destruct (oQeq_if_some _ _ _ Hpre1) as [Hp1 Ha1].
+  unfold upd_pred. rewrite (fill_pred_id m p sl Hg1), rbind_ok.
+  destruct (one_key_ok [st' p; old] [st' p; new] (kpair p m) sl Hok Hg1 Hp1 Ha1)
+    as [sl' [Eq [Hok' [Hf' [Hk1 Ho]]]]].
+  exists sl'. split; [exact Eq|]. split; [exact Hok'|]. split; [eapply same_frame_trans; eassumption|].
+  intro k. destruct (keqb_spec k (kpair p m)) as [E1|E1].
+  - subst k. eapply oQeq_trans; [exact Hk1|]. unfold Mp, kpair. cbn [touched_p].
+    rewrite N.eqb_refl. cbn [mem existsb]. rewrite N.eqb_refl. cbn [orb andb].
+    rewrite (in_spec_at st' sl0 p m Hpn Hmp), st'_m.
+    rewrite <- (same_frame_from _ _ [st' p; new] Hfr), <- (same_frame_wgt _ _ [p; m] Hfr).
+    apply oQeq_refl.
+  - eapply oQeq_trans; [apply Ho; assumption|]. eapply oQeq_trans; [apply Hag|]. apply oQeq_of_eq.
+    unfold Mp. replace (touched_p (p :: d) k) with (touched_p d k); [reflexivity|].
+    destruct k as [|a [|b [|c r]]]; cbn [touched_p]; try reflexivity.
+    cbn [mem existsb]. destruct (N.eqb_spec b m) as [Eb|Eb]; cbn [andb]; [|reflexivity].
+    subst b. destruct (N.eqb_spec a p) as [E|_]; [subst a; exfalso; apply E1; reflexivity|].
+    cbn [orb]. reflexivity.
+Qed.
+
+Lemma Mp_nil : forall sl k, Mp sl [] k = Ms sl (rev (gadj g m) ++ []) k.
+Proof.
+  intros sl k. unfold Mp. replace (touched_p [] k) with false; [reflexivity|].
+  destruct k as [|a [|b [|c r]]]; cbn [touched_p mem existsb]; try reflexivity.
+  rewrite andb_false_r. reflexivity.
+Qed.
+
+Lemma Mp_full : forall sl k, Mp sl (rev (gpred g m) ++ []) k = in_spec st' sl k.
+Proof.
+  intros sl k. unfold Mp. rewrite app_nil_r.
+  destruct (touched_p (rev (gpred g m)) k) eqn:Et; [reflexivity|].
+  unfold Ms. rewrite app_nil_r.
+  destruct (touched_s (rev (gadj g m)) k) eqn:Es; [reflexivity|].
+  destruct k as [|a [|b [|c r]]]; try reflexivity.
+  cbn [touched_p] in Et. cbn [touched_s] in Es. rewrite mem_rev in Et, Es.
+  destruct (N.eqb_spec a m) as [Ea|Ea].
+  - subst a. cbn [andb] in Es. apply mem_false in Es.
+    rewrite !in_spec_nonedge; [reflexivity| |]; intros [_ H]; contradiction.
+  - destruct (N.eqb_spec b m) as [Eb|Eb].
+    + subst b. cbn [andb] in Et. apply mem_false in Et.
+      rewrite !in_spec_nonedge; [reflexivity| |]; intros [Ha H]; apply Et;
+        apply (g_pred_adj Hg a m Ha Hm); exact H.
+    + symmetry. apply in_spec_untouched; assumption.
+Qed.
+
+(* ---- one induced slot, either branch, with the roundoff guard ---- *)
+Lemma upd_induced_ok : forall sl,
+  slok sl -> in_full sl -> (forall k, oQeq (sabs sl k) (in_spec st sl k)) ->
+  exists sl', upd_induced g st' m old new sl = Ok sl' /\ slok sl' /\ same_frame sl sl' /\
+              forall k, oQeq (sabs sl' k) (in_spec st' sl k).
+Proof.
+  intros sl Hok Hfull Hag. unfold upd_induced.
+  assert (Hloops : exists sl1,
+    (if gdirected g
+     then rbind (rfold (upd_succ st' m old new) (gadj g m) sl) (rfold (upd_pred st' m old new) (gpred g m))
+     else rfold (upd_nbr st' m old new) (gadj g m) sl) = Ok sl1 /\ slok sl1 /\ same_frame sl sl1 /\
+    forall k, oQeq (sabs sl1 k) (in_spec st' sl k)).
+  { destruct (gdirected g) eqn:Ed.
+    - destruct (sfold_agree (upd_succ st' m old new) sl (Ms sl) (gadj g m)
+                  (fun d x s1 Hx => upd_succ_ok sl Hfull d x s1 Hx)
+                  (g_adj_nodup Hg m Hm) [] sl) as [s1 [E1 [Hok1 [Hf1 Ha1]]]].
+      + intros x _ H. exact H.
+      + exact Hok.
+      + apply same_frame_refl.
+      + intro k. rewrite Ms_nil. apply Hag.
+      + rewrite E1, rbind_ok.
+        destruct (sfold_agree (upd_pred st' m old new) sl (Mp sl) (gpred g m)
+                    (fun d x s2 Hx => upd_pred_ok sl Hfull d x s2 Hx)
+                    (g_pred_nodup Hg m Hm) [] s1) as [s2 [E2 [Hok2 [Hf2 Ha2]]]].
+        * intros x _ H. exact H.
+        * exact Hok1.
+        * exact Hf1.
+        * intro k. rewrite Mp_nil. apply Ha1.
+        * exists s2. split; [exact E2|]. split; [exact Hok2|]. split; [exact Hf2|].
+          intro k. eapply oQeq_trans; [apply Ha2|]. rewrite Mp_full. apply oQeq_refl.
+    - destruct (sfold_agree (upd_nbr st' m old new) sl (Mu sl) (gadj g m)
+                  (fun d x s1 Hx => upd_nbr_ok sl Ed Hfull d x s1 Hx)
+                  (g_adj_nodup Hg m Hm) [] sl) as [s1 [E1 [Hok1 [Hf1 Ha1]]]].
+      + intros x _ H. exact H.
+      + exact Hok.
+      + apply same_frame_refl.
+      + intro k. rewrite Mu_nil. apply Hag.
+      + exists s1. split; [exact E1|]. split; [exact Hok1|]. split; [exact Hf1|].
+        intro k. eapply oQeq_trans; [apply Ha1|]. rewrite (Mu_full sl k Ed). apply oQeq_refl. }
+  destruct Hloops as [sl1 [E1 [Hok1 [Hf1 Ha1]]]]. rewrite E1, rbind_ok.
+  destruct (refresh_ok sl1 Hok1) as [sl2 [E2 [Hok2 [Hf2 Hs2]]]].
+  exists sl2. split; [exact E2|]. split; [exact Hok2|]. split; [eapply same_frame_trans; eassumption|].
+  intro k. rewrite Hs2. apply Ha1.
+Qed.
+
+End Update.
+End Ev.
